@@ -48,12 +48,14 @@ Fixpoint syscalls_of_texts (arch : str) (ts : list str) (all explicit : bool) (a
            end
   end.
 
+(* addSyscall: the rule's arch, or the runtime's when no arch filter was given *)
+Definition arch_choice (a0 : str) : option str := match a0 with [] => option_map s2l runtime_arch | _ => Some a0 end.
+
 Definition spec_of_prule (lst act : str) (filters : list (bool * str * str * str)) (syscalls keys : list str) : option rspec :=
   match items_of_filters filters with
   | None => None
   | Some items =>
-      let a0 := arch_in_force filters [] in
-      match (match a0 with [] => option_map s2l runtime_arch | _ => Some a0 end) with
+      match arch_choice (arch_in_force filters []) with
       | None => None
       | Some arch =>
           match syscalls_of_texts arch syscalls true false [] with
